@@ -3,6 +3,7 @@ from checks._simple import run_simple
 
 
 def run(tier, seed):
-    return run_simple("C11", tier, seed, "checks.c11_bounded", [],
+    from checks import extra_bounded
+    return run_simple("C11", tier, seed, "checks.c11_bounded", [], extra=[extra_bounded.c11_input_maps],
                       explanation="real library code on exhaustively enumerated DAGs compared with an independent reference",
                       assumptions=["networkx / the harness's own reference model are trusted as the specification's executable form"])
